@@ -4,7 +4,10 @@ import HdVerif.Proofs.SegGeom
 Property theorems only (helper lemmas: `Proofs/SegGeom.lean`; T3 lemmas of C04: `Proofs/TilingStd.lean`).
 Model: `Model/SegGeom.lean` (hand-written, tie C) composed with the definitions *regenerated from /repo's
 current source* `Gen.stdSliceIndices` (T2), `Gen.stdRowColIndices` (T3), `Gen.pyramidSpacing`,
-`Gen.pyramidLevelSize` (TC03pyr).  Geometry is exact over ℚ; a volume geometry is unit directions ×
+`Gen.pyramidLevelSize` (TC03pyr), `Gen.stackGeomSlice`, `Gen.stackFrameSlot`, `Gen.stackInitialSlices`
+(TC03stack: `_get_stacked_volume_geometry`), `Gen.{img,seg}TiledGeomLower`, `Gen.{img,seg}StackGeomSlice`,
+`Gen.{img,seg}StackArraySlice` (TC03imgvol / TC03segvol: the slices `get_volume` takes of geometry and pixels;
+`Kind` selects `Image.get_volume` or `Segmentation.get_volume`).  Geometry is exact over ℚ; a volume geometry is unit directions ×
 spacings × position (`Geom`), `Admissible` = orthonormal directions (either handedness), positive spacings.
 
 A stored stack is a list of frames; what this property speaks about is *where each frame goes*: `VolOut.frames`
@@ -24,12 +27,12 @@ kept plane), for every row and column; every stored plane `k` is placed in slot 
 theorem seg_volume_roundtrip {g : Geom} (hg : Admissible g) (ks : List Nat) (hks : ks ≠ []) (rows cols : Int)
     (hr : 1 ≤ rows) (hc : 1 ≤ cols) :
     ∃ k₁ ∈ ks, ∃ k₂ ∈ ks, ∃ out,
-      getVolumeStack (storeStack g ks) rows cols true ({} : Request) = .ok out ∧
+      getVolumeStack .seg (storeStack g ks) rows cols true ({} : Request) = .ok out ∧
       (∀ k ∈ ks, 0 ≤ handInt g * ((k : Int) - k₁) ∧ handInt g * ((k : Int) - k₁) < out.n) ∧
       out.n = handInt g * ((k₂ : Int) - k₁) + 1 ∧ out.rows = rows ∧ out.cols = cols ∧
       (∀ v r c : Int, out.aff.apply v r c = g.aff.apply ((k₁ : Int) + handInt g * v) r c) ∧
       out.frames = ks.zipIdx.map (fun (p : Nat × Nat) => (p.2, handInt g * ((p.1 : Int) - k₁))) := by
-  obtain ⟨k₁, hk₁, k₂, hk₂, hb, hok, _⟩ := roundtrip_store hg ks hks rows cols
+  obtain ⟨k₁, hk₁, k₂, hk₂, hb, hok, _⟩ := roundtrip_store .seg hg ks hks rows cols
   have hN : 1 ≤ handInt g * ((k₂ : Int) - k₁) + 1 := by have := (hb k₂ hk₂).1; omega
   have h := hok ({} : Request) 0 _ 0 rows 0 cols (sliceSpec_default _ hN false) (sliceSpec_default rows hr false)
     (sliceSpec_default cols hc false)
@@ -62,7 +65,7 @@ theorem seg_volume_roundtrip {g : Geom} (hg : Admissible g) (ks : List Nat) (hks
 input volume has the voxels of plane `ks[i]`. -/
 theorem stored_planes_keep_their_positions {g : Geom} (hg : Admissible g) (ks : List Nat) (hks : ks ≠ [])
     (rows cols : Int) (hr : 1 ≤ rows) (hc : 1 ≤ cols) :
-    ∃ out, getVolumeStack (storeStack g ks) rows cols true ({} : Request) = .ok out ∧
+    ∃ out, getVolumeStack .seg (storeStack g ks) rows cols true ({} : Request) = .ok out ∧
       ∀ i (hi : i < ks.length), ∃ v, (i, v) ∈ out.frames ∧ 0 ≤ v ∧ v < out.n ∧
         ∀ r c : Int, out.aff.apply v r c = g.aff.apply (ks[i] : Int) r c := by
   obtain ⟨k₁, _, k₂, _, out, hout, hb, _, _, _, happ, hfr⟩ := seg_volume_roundtrip hg ks hks rows cols hr hc
@@ -85,7 +88,7 @@ plane `kmin + v`, `kmin` the first kept plane; if plane 0 is kept the affine is 
 theorem right_handed_reads_back_identically {g : Geom} (hg : Admissible g) (hdet : g.det = 1) (ks : List Nat)
     (hks : ks ≠ []) (rows cols : Int) (hr : 1 ≤ rows) (hc : 1 ≤ cols) :
     ∃ kmin ∈ ks, ∃ kmax ∈ ks, (∀ k ∈ ks, kmin ≤ k ∧ k ≤ kmax) ∧ ∃ out,
-      getVolumeStack (storeStack g ks) rows cols true ({} : Request) = .ok out ∧
+      getVolumeStack .seg (storeStack g ks) rows cols true ({} : Request) = .ok out ∧
       out.n = (kmax : Int) - kmin + 1 ∧
       (∀ v r c : Int, out.aff.apply v r c = g.aff.apply ((kmin : Int) + v) r c) ∧
       out.frames = ks.zipIdx.map (fun (p : Nat × Nat) => (p.2, (p.1 : Int) - kmin)) ∧
@@ -109,7 +112,7 @@ theorem right_handed_reads_back_identically {g : Geom} (hg : Admissible g) (hdet
 theorem left_handed_reads_back_mirrored {g : Geom} (hg : Admissible g) (hdet : g.det = -1) (ks : List Nat)
     (hks : ks ≠ []) (rows cols : Int) (hr : 1 ≤ rows) (hc : 1 ≤ cols) :
     ∃ kmin ∈ ks, ∃ kmax ∈ ks, (∀ k ∈ ks, kmin ≤ k ∧ k ≤ kmax) ∧ ∃ out,
-      getVolumeStack (storeStack g ks) rows cols true ({} : Request) = .ok out ∧
+      getVolumeStack .seg (storeStack g ks) rows cols true ({} : Request) = .ok out ∧
       out.n = (kmax : Int) - kmin + 1 ∧
       (∀ v r c : Int, out.aff.apply v r c = g.aff.apply ((kmax : Int) - v) r c) ∧
       out.frames = ks.zipIdx.map (fun (p : Nat × Nat) => (p.2, (kmax : Int) - p.1)) := by
@@ -137,7 +140,7 @@ theorem left_handed_reads_back_mirrored {g : Geom} (hg : Admissible g) (hdet : g
 exactly when the input plane lying there (`src v = k₁ + h·v`) was stored. -/
 theorem omitted_planes_read_empty {g : Geom} (hg : Admissible g) (ks : List Nat) (hks : ks ≠ []) (rows cols : Int)
     (hr : 1 ≤ rows) (hc : 1 ≤ cols) :
-    ∃ k₁ ∈ ks, ∃ out, getVolumeStack (storeStack g ks) rows cols true ({} : Request) = .ok out ∧
+    ∃ k₁ ∈ ks, ∃ out, getVolumeStack .seg (storeStack g ks) rows cols true ({} : Request) = .ok out ∧
       ∀ v : Int, (∃ i, (i, v) ∈ out.frames) ↔ ∃ k ∈ ks, (k : Int) = (k₁ : Int) + handInt g * v := by
   obtain ⟨k₁, hk₁, k₂, _, out, hout, _, _, _, _, _, hfr⟩ := seg_volume_roundtrip hg ks hks rows cols hr hc
   refine ⟨k₁, hk₁, out, hout, ?_⟩
@@ -167,18 +170,18 @@ theorem omitted_planes_read_empty {g : Geom} (hg : Admissible g) (ks : List Nat)
 `n` the unit normal of the recorded orientation, `sp` the recorded SpacingBetweenSlices) are recognised as a
 stack; frame `i` goes to slot `e_i − min e`, and that slot lies exactly at the frame's own recorded position,
 row and column vectors being the recorded spacing × cosines. -/
-theorem aligned_sources_any_order (st : Stack) (hst : StackOK st) (base : V3) (sp : Rat) (hsp : 0 < sp)
+theorem aligned_sources_any_order (k : Kind) (st : Stack) (hst : StackOK st) (base : V3) (sp : Rat) (hsp : 0 < sp)
     (es : List Int) (hes : es ≠ []) (hpos : st.pos = es.map (linePos (normal st.rowCos st.colCos) base sp))
     (hhint : st.hint = some sp) (rows cols : Int) (hr : 1 ≤ rows) (hc : 1 ≤ cols) :
     ∃ emin ∈ es, ∃ emax ∈ es, (∀ e ∈ es, emin ≤ e ∧ e ≤ emax) ∧ ∃ out,
-      getVolumeStack st rows cols true ({} : Request) = .ok out ∧
+      getVolumeStack k st rows cols true ({} : Request) = .ok out ∧
       out.n = emax - emin + 1 ∧ out.rows = rows ∧ out.cols = cols ∧
       out.frames = es.zipIdx.map (fun (p : Int × Nat) => (p.2, p.1 - emin)) ∧
       ∀ i (hi : i < es.length) (r c : Int),
         out.aff.apply (es[i] - emin) r c
           = add (add (linePos (normal st.rowCos st.colCos) base sp es[i]) (smul ((r : Rat) * st.psRow) st.colCos))
               (smul ((c : Rat) * st.psCol) st.rowCos) := by
-  obtain ⟨emin, hemin, emax, hemax, hb, hok, _⟩ := getVolumeStack_line st hst base sp hsp es hes hpos hhint rows cols
+  obtain ⟨emin, hemin, emax, hemax, hb, hok, _⟩ := getVolumeStack_line k st hst base sp hsp es hes hpos hhint rows cols
   have hN : 1 ≤ emax - emin + 1 := by have := hb emax hemax; omega
   have h := hok ({} : Request) 0 _ 0 rows 0 cols (sliceSpec_default _ hN false) (sliceSpec_default rows hr false)
     (sliceSpec_default cols hc false)
@@ -251,8 +254,8 @@ theorem stdRowColIndices_spec (rs re cs ce : Option Int) (rows cols : Int) (asId
 result is the default (full) volume cut to the Python-slice meaning `[s0,e0) × [s1,e1) × [s2,e2)` of the
 request, and its affine maps index `(i, j, k)` to the full volume's position of `(s0+i, s1+j, s2+k)` — in
 particular index 0 to the position of the sub-region's first voxel.  Frames of slots `s0..e0-1` move down by `s0`. -/
-theorem subvolume_origin (st : Stack) (rows cols : Int) (am : Bool) (rq : Request) (out : VolOut)
-    (h : getVolumeStack st rows cols am rq = .ok out) :
+theorem subvolume_origin (k : Kind) (st : Stack) (rows cols : Int) (am : Bool) (rq : Request) (out : VolOut)
+    (h : getVolumeStack k st rows cols am rq = .ok out) :
     ∃ full s0 e0 s1 e1 s2 e2, volumeGeometryStack st rows cols am = .ok full ∧
       sliceSpec rq.sliceStart rq.sliceEnd full.n rq.asIdx = some (s0, e0) ∧
       sliceSpec rq.rowStart rq.rowEnd rows rq.asIdx = some (s1, e1) ∧
@@ -262,7 +265,7 @@ theorem subvolume_origin (st : Stack) (rows cols : Int) (am : Bool) (rq : Reques
       out.n = e0 - s0 ∧ out.rows = e1 - s1 ∧ out.cols = e2 - s2 ∧ out.rowFirst = s1 ∧ out.colFirst = s2 ∧
       (∀ i v, (i, v) ∈ out.frames ↔ ((i, v + s0) ∈ full.frames ∧ 0 ≤ v ∧ v < e0 - s0)) := by
   obtain ⟨full, s0, e0, s1, e1, s2, e2, hf, h0, h1, h2, haff, hn, hrw, hcl, hrf, hcf, hfr⟩ :=
-    getVolumeStack_sub st rows cols am rq out h
+    getVolumeStack_sub k st rows cols am rq out h
   refine ⟨full, s0, e0, s1, e1, s2, e2, hf, h0, h1, h2, ?_, ?_, ?_, ?_, hn, hrw, hcl, hrf, hcf, hfr⟩
   · intro i j k; rw [haff, aff_shift_apply]
   · rw [haff]; rfl
@@ -270,34 +273,34 @@ theorem subvolume_origin (st : Stack) (rows cols : Int) (am : Bool) (rq : Reques
   · rw [haff]; rfl
 
 /-- requests that are empty, out of range or zero in one-based numbering on any axis are refused -/
-theorem subvolume_refused (st : Stack) (rows cols : Int) (am : Bool) (rq : Request) (full : StackGeom)
+theorem subvolume_refused (k : Kind) (st : Stack) (rows cols : Int) (am : Bool) (rq : Request) (full : StackGeom)
     (hfull : volumeGeometryStack st rows cols am = .ok full)
     (hbad : sliceSpec rq.sliceStart rq.sliceEnd full.n rq.asIdx = none ∨
       sliceSpec rq.rowStart rq.rowEnd rows rq.asIdx = none ∨ sliceSpec rq.colStart rq.colEnd cols rq.asIdx = none) :
-    ∃ k, getVolumeStack st rows cols am rq = .error k :=
-  getVolumeStack_refuses st rows cols am rq full hfull hbad
+    ∃ kk, getVolumeStack k st rows cols am rq = .error kk :=
+  getVolumeStack_refuses k st rows cols am rq full hfull hbad
 
 /-- **Clause 2 (stacked images)**: the volume `get_volume()` returns has exactly the geometry
 `get_volume_geometry()` reports (affine, shape, frame placement). -/
-theorem volume_agrees_with_reported_geometry (st : Stack) (rows cols : Int) (hr : 1 ≤ rows) (hc : 1 ≤ cols)
+theorem volume_agrees_with_reported_geometry (k : Kind) (st : Stack) (rows cols : Int) (hr : 1 ≤ rows) (hc : 1 ≤ cols)
     (am : Bool) (full : StackGeom) (hfull : volumeGeometryStack st rows cols am = .ok full) :
-    ∃ out, getVolumeStack st rows cols am ({} : Request) = .ok out ∧ out.aff = full.aff ∧ out.n = full.n ∧
+    ∃ out, getVolumeStack k st rows cols am ({} : Request) = .ok out ∧ out.aff = full.aff ∧ out.n = full.n ∧
       out.rows = rows ∧ out.cols = cols ∧ out.frames = full.frames :=
-  ⟨_, getVolumeStack_default st rows cols hr hc am full hfull, rfl, rfl, rfl, rfl, rfl⟩
+  ⟨_, getVolumeStack_default k st rows cols hr hc am full hfull, rfl, rfl, rfl, rfl, rfl⟩
 
 /-- **Clause 3 (tiled images and tiled segmentations)**: an accepted request returns the reported geometry of
 the total pixel matrix translated to the position of the first requested row `a` and column `c` (what the
 regenerated T3 makes of the request — for non-empty regions its Python-slice meaning, `stdRowColIndices_spec`),
 with `b − a` rows and `d − c` columns; the slice request must mean the single plane. -/
-theorem tiled_subvolume_origin (origin rowCos colCos : V3) (psRow psCol : Rat) (sbs : Option Rat) (R C : Int)
-    (rq : Request) (out : VolOut) (h : tiledVolume origin rowCos colCos psRow psCol sbs R C rq = .ok out) :
+theorem tiled_subvolume_origin (k : Kind) (origin rowCos colCos : V3) (psRow psCol : Rat) (sbs : Option Rat) (R C : Int)
+    (rq : Request) (out : VolOut) (h : tiledVolume k origin rowCos colCos psRow psCol sbs R C rq = .ok out) :
     ∃ full a b c d, volumeGeometryTiled origin rowCos colCos psRow psCol sbs = .ok full ∧
       stdRowColIndices rq.rowStart rq.rowEnd rq.colStart rq.colEnd R C rq.asIdx true = .ok (a, b, c, d) ∧
       sliceSpec rq.sliceStart rq.sliceEnd 1 rq.asIdx = some (0, 1) ∧
       (∀ i j k : Int, out.aff.apply i j k = full.apply i (a + j) (c + k)) ∧
       out.n = 1 ∧ out.rows = b - a ∧ out.cols = d - c ∧ 0 ≤ a ∧ a < R ∧ a ≤ b ∧ b ≤ R ∧ 0 ≤ c ∧ c < C ∧ c ≤ d ∧ d ≤ C := by
   obtain ⟨full, a, b, c, d, hf, hT3, hsl, haff, hn, hrw, hcl, hab, hcd, _, _⟩ :=
-    tiledVolume_sub origin rowCos colCos psRow psCol sbs R C rq out h
+    tiledVolume_sub k origin rowCos colCos psRow psCol sbs R C rq out h
   have hr := stdRowCol_range_idx hT3
   refine ⟨full, a, b, c, d, hf, hT3, hsl, ?_, hn, hrw, hcl, hr.1, hr.2.1, hab, hr.2.2.2.1, hr.2.2.2.2.1, hr.2.2.2.2.2.1,
     hcd, hr.2.2.2.2.2.2.2⟩
@@ -306,12 +309,12 @@ theorem tiled_subvolume_origin (origin rowCos colCos : V3) (psRow psCol : Rat) (
   simp
 
 /-- **Clause 2 (tiled)**: the default request returns exactly the reported geometry and the whole matrix. -/
-theorem tiled_volume_agrees_with_reported_geometry (origin rowCos colCos : V3) (psRow psCol : Rat) (sbs : Option Rat)
+theorem tiled_volume_agrees_with_reported_geometry (k : Kind) (origin rowCos colCos : V3) (psRow psCol : Rat) (sbs : Option Rat)
     (R C : Int) (hR : 1 ≤ R) (hC : 1 ≤ C) (full : Aff)
     (hfull : volumeGeometryTiled origin rowCos colCos psRow psCol sbs = .ok full) :
-    ∃ out, tiledVolume origin rowCos colCos psRow psCol sbs R C ({} : Request) = .ok out ∧ out.aff = full ∧ out.n = 1 ∧
+    ∃ out, tiledVolume k origin rowCos colCos psRow psCol sbs R C ({} : Request) = .ok out ∧ out.aff = full ∧ out.n = 1 ∧
       out.rows = R ∧ out.cols = C :=
-  ⟨_, tiledVolume_default origin rowCos colCos psRow psCol sbs R C hR hC full hfull, rfl, rfl, rfl, rfl⟩
+  ⟨_, tiledVolume_default k origin rowCos colCos psRow psCol sbs R C hR hC full hfull, rfl, rfl, rfl, rfl⟩
 
 /-- the geometry reported for a tiled image puts pixel `(r, c)` of the total pixel matrix at
 `origin + r·(row spacing)·(column cosines) + c·(column spacing)·(row cosines)` -/
